@@ -33,7 +33,7 @@ def gen_cases(ctx):
         stop = 0 if i % 2 == 0 else rnd.randint(5, 80)
         cases.append({"seed": rnd.randrange(1 << 30), "smfs": rnd.choice([2, 3, 4]), "producers": rnd.choice([2, 4, 8]),
                       "run_ms": rnd.choice([120, 200]) if stop == 0 else rnd.choice([40, 80]), "stop_in_ms": stop,
-                      "retrans_ms": rnd.choice([2, 5, 10]), "maxretrans": rnd.choice([0, 1, 2, 3])})
+                      "retrans_ms": rnd.choice([2, 5, 10]), "maxretrans": rnd.choice([0, 1, 2, 3]), "perio": i % 4 < 2})
     return cases
 
 
